@@ -14,6 +14,7 @@ import (
 	"encoding/json"
 	"fmt"
 	"math/rand"
+	"net"
 	"net/http"
 	"net/http/httptest"
 	"net/url"
@@ -655,6 +656,8 @@ func partB(run *vh.Run) {
 		// delayed[k]: the catalog answer for snapshot k is slow and snapshot k+1 is published
 		// while that request is outstanding (its own catalog answers are fast)
 		delayed []bool
+		// installed: the pushed configs also go through the real watchBackend loop
+		installed bool
 	}
 	var hists []hist
 	// directed histories first: colliding node/id pairs (repaired F-C01-1), blank-padded route tags (repaired F-C01-2) and their neighbours
@@ -712,6 +715,32 @@ func partB(run *vh.Run) {
 				}
 			}
 			h.states = append(h.states, st)
+		}
+		hists = append(hists, h)
+	}
+
+	// bad-registration histories: two good services and one whose routing tag cannot become a
+	// table entry - one history per rejection reason of route.NewTable, syntactic and semantic.
+	// good table installed -> bad registration appears -> another service changes health -> ...
+	badTags := []string{"urlprefix-/reports/[0-9", "urlprefix-[x.com/", "urlprefix-/r redirect=301,http://[::1", "urlprefix-",
+		"urlprefix-/bw weight=abc", "urlprefix-/q opt=\"x", "urlprefix-x.com/{a"}
+	nb := run.Scale(len(badTags), 10*len(badTags))
+	for i := 0; i < nb; i++ {
+		h := hist{class: "svc-bad-registration", prefix: tagPrefix, status: []string{"passing"}, strict: i%2 == 1, monitors: r.Intn(3), installed: true}
+		g1 := inst{node: "n1", sid: "s1", name: "svc-a", tags: []string{"urlprefix-/foo", "v1"}, addr: "10.0.0.1", port: 8001}
+		g2 := inst{node: "n2", sid: "s2", name: "svc-b", tags: []string{"urlprefix-x.com/bar"}, addr: "10.0.0.2", port: 8002}
+		bd := inst{node: "n3", sid: "s3", name: "svc-c", tags: []string{badTags[i%len(badTags)]}, addr: "10.0.0.3", port: 8003}
+		if i >= len(badTags) && r.Intn(2) == 0 { // a good routing tag beside the bad one
+			bd.tags = append(bd.tags, "urlprefix-/ok")
+			r.Shuffle(len(bd.tags), func(a, b int) { bd.tags[a], bd.tags[b] = bd.tags[b], bd.tags[a] })
+		}
+		okc := func(in inst, st string) *api.HealthCheck { return svcCheck(in, "service:"+in.sid, st) }
+		h.states = []regState{
+			{[]inst{g1, g2}, []*api.HealthCheck{okc(g1, "passing"), okc(g2, "passing")}},
+			{[]inst{g1, g2, bd}, []*api.HealthCheck{okc(g1, "passing"), okc(g2, "passing"), okc(bd, "passing")}},
+			{[]inst{g1, g2, bd}, []*api.HealthCheck{okc(g1, "passing"), okc(g2, "critical"), okc(bd, "passing")}},
+			{[]inst{g1, g2, bd}, []*api.HealthCheck{okc(g1, "critical"), okc(g2, "passing"), okc(bd, "passing")}},
+			{[]inst{g1, g2}, []*api.HealthCheck{okc(g1, "passing"), okc(g2, "passing")}},
 		}
 		hists = append(hists, h)
 	}
@@ -867,6 +896,14 @@ func partB(run *vh.Run) {
 					"checks": humanChecks(st.checks), "catalog": human, "pushed": strings.Split(res.texts[k], "\n")})
 			if !h.inconsistent {
 				emitE2E(run, h.class, h.prefix, h.status, h.strict, st.checks, res.cats[k], res.texts[k], human)
+				if h.installed {
+					if k == 0 {
+						installedJobs = append(installedJobs, installedJob{class: "installed-" + h.class})
+					}
+					job := &installedJobs[len(installedJobs)-1]
+					job.texts = append(job.texts, res.texts[k])
+					job.emit = append(job.emit, e2eCase(run, h.prefix, h.status, h.strict, st.checks, res.cats[k], res.texts[k], human))
+				}
 			}
 		}
 	}
@@ -885,8 +922,12 @@ func hostpathGo(prefix string) (string, string) {
 	return p[0], "/" + p[1]
 }
 
-func emitE2E(run *vh.Run, class, prefix string, status []string, strict bool, checks []*api.HealthCheck,
-	cat []*api.CatalogService, text string, human []string) {
+// e2eCase gathers, with the real libraries, what the composed model takes as parameters for the
+// registry state (url.Parse on every destination a routing tag can stand for, glob.Compile on
+// every path and lower-cased host - of the CANDIDATE commands, dropped or not) and returns a
+// function that emits the case for an observed table.
+func e2eCase(run *vh.Run, prefix string, status []string, strict bool, checks []*api.HealthCheck,
+	cat []*api.CatalogService, text string, human []string) func(class string, dump [][4]string, accepted bool) {
 	urls := map[string]string{}
 	var addURL func(d string)
 	addURL = func(d string) {
@@ -902,17 +943,40 @@ func emitE2E(run *vh.Run, class, prefix string, status []string, strict bool, ch
 		addURL(u.String())
 	}
 	bad := map[string]bool{}
+	addGlob := func(p string) {
+		if _, err := glob.Compile(p); err != nil {
+			bad[p] = true
+		}
+	}
+	env := map[string]string{"DC": "dc1"}
 	items := make([]string, len(cat))
 	for i, e := range cat {
-		for _, line := range consul.VerifRouteCmdBuild(e, prefix, map[string]string{"DC": "dc1"}) {
-			fs := strings.Fields(line)
-			if len(fs) >= 5 {
+		for _, line := range consul.VerifRouteCmdBuild(e, prefix, env) {
+			if fs := strings.Fields(line); len(fs) >= 5 {
 				addURL(fs[4])
 			}
-			if len(fs) >= 4 {
-				_, p := hostpathGo(fs[3])
-				if _, err := glob.Compile(p); err != nil {
-					bad[p] = true
+		}
+		addr := e.ServiceAddress
+		if addr == "" {
+			addr = e.Address
+		}
+		hp := net.JoinHostPort(addr, strconv.Itoa(e.ServicePort))
+		for _, d := range []string{"http://" + hp + "/", "tcp://" + hp, "https://" + hp, "grpc://" + hp, "grpcs://" + hp} {
+			addURL(d)
+		}
+		for _, tag := range e.ServiceTags {
+			rt, opts, ok := consul.VerifC01ParseURLPrefixTag(tag, prefix, env)
+			if !ok {
+				continue
+			}
+			h, p := hostpathGo(rt)
+			addGlob(p)
+			addGlob(strings.ToLower(h))
+			for _, o := range strings.Fields(opts) {
+				if strings.HasPrefix(o, "redirect=") {
+					if rd := strings.Split(o[len("redirect="):], ","); len(rd) == 2 {
+						addURL(rd[1])
+					}
 				}
 			}
 		}
@@ -934,24 +998,45 @@ func emitE2E(run *vh.Run, class, prefix string, status []string, strict bool, ch
 		bl = append(bl, k)
 	}
 	sort.Strings(bl)
+	envT := "(Some [(" + vh.HxS("DC") + ", " + vh.HxS("dc1") + ")])"
+	return func(class string, dump [][4]string, accepted bool) {
+		tbl := vh.None
+		if accepted {
+			tbl = vh.Some(coqTbl(dump))
+		}
+		run.Add(class, vh.App("CE2E", envT, vh.HxS(prefix), vh.List(ul), strs(bl), strs(status), vh.Bool(strict),
+			coqChecks(checks), vh.List(items), vh.HxS(text), tbl),
+			map[string]interface{}{"status": status, "strict": strict, "checks": humanChecks(checks), "catalog": human,
+				"pushed": strings.Split(text, "\n"), "table": dump, "accepted": accepted, "bad_globs": bl})
+	}
+}
+
+func emitE2E(run *vh.Run, class, prefix string, status []string, strict bool, checks []*api.HealthCheck,
+	cat []*api.CatalogService, text string, human []string) {
+	emit := e2eCase(run, prefix, status, strict, checks, cat, text, human)
 	var t route.Table
 	var err error
 	if p, v := vh.Recover(func() { t, err = route.NewTable(bytes.NewBufferString(text)) }); p {
 		run.Violation(run.NextID(), fmt.Sprintf("route.NewTable panicked on a config pushed by the consul backend: %v", v), text)
 		return
 	}
-	tbl := vh.None
 	var dump [][4]string
 	if err == nil {
 		dump = dumpTable(t)
-		tbl = vh.Some(coqTbl(dump))
 	}
-	env := "(Some [(" + vh.HxS("DC") + ", " + vh.HxS("dc1") + ")])"
-	run.Add("e2e-"+class, vh.App("CE2E", env, vh.HxS(prefix), vh.List(ul), strs(bl), strs(status), vh.Bool(strict),
-		coqChecks(checks), vh.List(items), vh.HxS(text), tbl),
-		map[string]interface{}{"status": status, "strict": strict, "checks": humanChecks(checks), "catalog": human,
-			"pushed": strings.Split(text, "\n"), "table": dump, "accepted": err == nil})
+	emit("e2e-"+class, dump, err == nil)
 }
+
+// a history whose pushed configs are also delivered, in order, to the real watchBackend loop
+// (part C's driver); the table INSTALLED after each delivery is compared with the composed
+// model and with the spec "exactly the healthy tagged instances whose commands validate"
+type installedJob struct {
+	class string
+	texts []string
+	emit  []func(class string, dump [][4]string, accepted bool)
+}
+
+var installedJobs []installedJob
 
 // ---------- C: watchBackend ----------
 
@@ -1097,6 +1182,16 @@ func partC(run *vh.Run) {
 			seqs[si].Events = append(seqs[si].Events, wEvent{Man: e[0] == 1, Text: sc.texts[e[1]], Obs: e[2] == 1})
 		}
 	}
+	// the configs the real consul backend pushed for the bad-registration histories (part B),
+	// delivered in order; the installed table is read after every delivery
+	nScripts := len(seqs)
+	for _, job := range installedJobs {
+		var sq wSeq
+		for _, t := range job.texts {
+			sq.Events = append(sq.Events, wEvent{Man: false, Text: t, Obs: false}, wEvent{Man: false, Text: t, Obs: true})
+		}
+		seqs = append(seqs, sq)
+	}
 	// run the real loop: go test in the repository under test
 	repo := os.Getenv("VERIF_REPO")
 	if repo == "" {
@@ -1143,6 +1238,16 @@ func partC(run *vh.Run) {
 		}
 		run.Violation(run.NextID(), fmt.Sprintf("watchBackend driver (go test -tags verif -run TestVerifC01 in %s) failed: %v", repo, err), tail)
 		return
+	}
+	for ji, job := range installedJobs {
+		o := outs[nScripts+ji]
+		if o.Stuck || len(o.Tables) != len(job.texts) {
+			run.Violation(run.NextID(), "watchBackend stopped accepting the configs pushed by the consul backend", job.texts)
+			continue
+		}
+		for k := range job.texts {
+			job.emit[k](job.class, o.Tables[k], true)
+		}
 	}
 	for si, sc := range scripts {
 		o := outs[si]
